@@ -152,9 +152,14 @@ package gateway
 
 // Event delivery (property C19): the timestamp put on the wire denotes the instant of the change
 // (Event.EventTime is in Unix NANOseconds); events with an unknown status are not sent.
+// One sender at a time (fixed defect): the callback runs on the goroutine of whichever writer changed a
+// record, writers of different records run in parallel, and gRPC forbids concurrent SendMsg on one
+// stream -- every SendMsg on the subscriber's stream is made while holding the subscription's mutex.
+//@ trusted func (github.com/hydraide/hydraide/sdk/go/hydraidego/v3/hydraidepbgo.HydraideService_SubscribeToEventsServer).SendMsg(s, m) (err)
 //@ func (Gateway).SubscribeToEvents$1(event)
 //@   property C19
 //@   modifies *
+//@   before HydraideService_SubscribeToEventsServer.SendMsg [C19:one_sender_at_a_time_on_the_subscribers_stream] held(sendMu)
 //@   ensures[event_time_is_the_instant_of_the_change] event != nil ==> calls("Unix") == old(calls("Unix")) + 1 && U_unixnano(lastret("Unix")) == old(event.EventTime) && calledwith("New", 0, lastret("Unix"))
 
 // Request validation (property C26): a swamp name that is empty or does not have the three-part
